@@ -1,7 +1,21 @@
 //! `ckc-probe cases <family> ...`: enumerate big exhaustive case files quickly (the same
 //! one-operation-per-line format tools/inputs.py writes for the seeded families).
 
-use ckc_rs::deck::POKER_DECK;
+/// The 52 card words in deck order (spades, hearts, diamonds, clubs; ace down to deuce), built from the documented
+/// layout alone - NOT read from the implementation's deck, so that a defect of the deck cannot change the domain the
+/// enumerations and sweeps run over (C10 / C18 prove that the implementation's deck is this list).
+pub fn spec_deck() -> [u32; 52] {
+    const PRIMES: [u32; 13] = [2, 3, 5, 7, 11, 13, 17, 19, 23, 29, 31, 37, 41];
+    let mut d = [0u32; 52];
+    let mut i = 0;
+    for s in (0..4u32).rev() {
+        for r in (0..13u32).rev() {
+            d[i] = (1 << (16 + r)) | (1 << (12 + s)) | (r << 8) | PRIMES[r as usize];
+            i += 1;
+        }
+    }
+    d
+}
 use std::io::Write;
 
 fn arg<'a>(args: &'a [String], key: &str) -> Option<&'a str> {
@@ -29,8 +43,7 @@ fn combos(n: usize, k: usize, mut f: impl FnMut(&[usize])) {
 
 pub fn cases(args: &[String]) {
     let fam = args.first().map(String::as_str).unwrap_or("");
-    let deck = POKER_DECK.arr();
-    // the deck used for enumeration is the implementation's own; C18/C10 prove it is the 52 cards
+    let deck = spec_deck();
     let stdout = std::io::stdout();
     let mut w = std::io::BufWriter::with_capacity(1 << 20, stdout.lock());
     let stride: usize = arg(args, "--stride").map_or(1, |s| s.parse().unwrap());
